@@ -111,7 +111,24 @@ fn one_case<const K: usize>(r: &mut Rng, id: usize, out: &mut String) {
     if kind < 8 {
         // with probability 1/12 a dimension mismatch (malformed stream)
         let gm = if r.chance(1, 12) { m + 1 } else { m };
-        let mut g: AffTree<K> = gen_tree(r, gm, k, cfg_g);
+        // the arena of g is not always in creation order (subtrees removed and regrown: a decision can sit in a
+        // slot with a smaller index than its parent)
+        let mut g: AffTree<K> = if r.chance(1, 3) { gen_tree_holes(r, gm, k, cfg_g, 3) } else { gen_tree(r, gm, k, cfg_g) };
+        // a terminal of g that stores the same matrix and bias as a decision of g (possible when the output dimension
+        // equals the number of predicate rows): the two are lifted by different rules
+        {
+            let root = g.tree.get_root_idx();
+            let decs: Vec<usize> = g.tree.decision_indices().filter(|d| *d != root).collect();
+            let terms: Vec<usize> = g.tree.terminal_indices().collect();
+            if !decs.is_empty() && !terms.is_empty() && r.chance(1, 2) {
+                let d = decs[r.below(decs.len())];
+                let p = g.tree.node_value(d).unwrap().aff.clone();
+                if p.outdim() == k {
+                    let t = terms[r.below(terms.len())];
+                    g.update_node(t, p).unwrap();
+                }
+            }
+        }
         if wide {
             let ids: Vec<usize> = g.tree.node_indices().collect();
             for i in ids {
